@@ -7,7 +7,7 @@ from ..core import hx
 PROOF_MODULE = "Nlmodel.Proofs.C14"
 PROOF_FILES = ["Nlmodel/Proofs/C14.lean", "Nlmodel/Model/Value.lean", "Nlmodel/Model/Float.lean"]
 THEOREM_FILE = PROOF_FILES[0]
-LEVEL_TEXT = ("Lean theorems about the builtins of the model (builtinCore, callBuiltin, formatPrint, shared by the machine model and the definitional semantics): a wrong argument count to anything but print is an argument error; the only error kinds are argument and type; conversion to the own type is the identity; the bool table; int(string(i)) = i for EVERY integer (decimal printer and parser are written out in the model and proved inverse); print replaces the first placeholder of the ORIGINAL format text by the first argument and continues with the remaining ones; without arguments the text is unchanged. The float<->text round trip is not proved (partial): the model implements shortest-round-trip printing and correctly rounded parsing as exact rational arithmetic, and both are compared with Rust std on every float of the run. The builtins are tied to builtins.rs by the complete cross product value shapes x builtins x arities 0-3 and print with 0-4 arguments x 0-4 placeholders x literal braces.")
+LEVEL_TEXT = ("Lean theorems about the builtins of the model (builtinCore, callBuiltin, formatPrint, shared by the machine model and the definitional semantics): a wrong argument count to anything but print is an argument error; the only error kinds are argument and type; conversion to the own type is the identity; the bool table; int(string(i)) = i for EVERY integer (decimal printer and parser are written out in the model and proved inverse); print replaces the first placeholder of the ORIGINAL format text by the first argument and continues with the remaining ones; without arguments the text is unchanged. The float<->text round trip is not proved (partial): the model implements shortest-round-trip printing and correctly rounded parsing as exact rational arithmetic, and both are compared with Rust std on every float of the run. The builtins are tied to builtins.rs by the complete cross product value shapes x builtins x arities 0-3 and print with 0-4 arguments x 0-4 placeholders x literal braces. EVERY BUILTIN ON THE MACHINE AS IN THE SEMANTICS (C14_builtin_agrees; C01 stage 5): related argument lists (any arity, any value kinds, nested and cyclic arrays) give related results, the same printed line, the same error kind.")
 LEVEL_NOTE = ("Trusted: Lean kernel; Rust std's f64 Display/FromStr (validated against the model's exact algorithms on the run's floats, not proved); str::trim's White_Space set is mirrored and compared exhaustively through the unicode table dump.")
 TECHNIQUE = "Lean 4 proof (builtin semantics, decimal round trip, print formatting) + complete shape x builtin x arity correspondence"
 RULE = ("complete cross product of ~70 value shapes x 7 builtins, arities 0-3 for every builtin, print with 0-4 arguments x format "
@@ -32,6 +32,25 @@ def shapes(rng, tier):
         s.append("%d.%d" % (rng.below(10 ** rng.range(1, 15)), rng.below(10 ** rng.range(1, 12))))
         s.append('"%d.%d"' % (rng.below(10 ** rng.range(1, 18)), rng.below(10 ** rng.range(0, 18))))
     return s
+
+
+def text_arguments(rng, tier):
+    """every builtin on texts of every length 0..72 with a multi-byte character at every byte offset (a text that is echoed,
+    measured, trimmed or parsed must be handled per character, whatever its length), and on random long texts"""
+    out = []
+    wide = ["é", "日", "😀", "\u0085", "　"]
+    for b in BUILTINS:
+        for k in (list(range(0, 36)) if tier == "quick" else list(range(0, 73))) + [63, 64, 127, 128, 255, 256, 1023]:
+            w = wide[k % len(wide)]
+            out.append('%s("%s%s%s")' % (b, "x" * k, w, "yz"))
+            if k % 3 == 0:
+                out.append('%s("%s%s%s")' % (b, "1" * k, w, "5"))
+                out.append('%s("%s%s")' % (b, " " * k, w * 3))
+    alpha = ["a", "Z", "0", "1", "9", ".", "-", "+", "e", " ", "_", "é", "ë", "日", "😀", "€", "\u0085", " ", "٣", "{", "}"]
+    for _ in range(200 if tier == "quick" else 5000):
+        t = "".join(rng.pick(alpha) for _ in range(rng.pick([1, 5, 19, 20, 21, 22, 30, 40, 64, 100])))
+        out.append('%s("%s")' % (rng.pick(BUILTINS), t))
+    return out
 
 
 def run(res, tier, rng, table_diffs=()):
@@ -78,6 +97,7 @@ def run(res, tier, rng, table_diffs=()):
         x = struct.unpack("<d", struct.pack("<Q", bits))[0]
         p = 'stel f = float("%r"); [float(string(f)) == f, string(f)]' % x
         progs.append(p)
+    progs += text_arguments(rng, tier)
     rs = diff.eval_all(progs, budget=100000)
     reported = 0
     for src, r in zip(progs, rs):
